@@ -279,6 +279,7 @@ func boolInt(b bool) int {
 type hsEdit struct {
 	Dir int    `json:"dir"`
 	Msg int    `json:"msg"` // index (modulo the number seen so far is NOT applied: exact index among clear-text handshake records)
+	Type int   `json:"type,omitempty"` // > 0: instead of Msg, the first clear-text handshake message of this type
 	Op  string `json:"op"`  // empty | shrink | set | setvec | echo_sid | dropext | dupext
 	Data []byte `json:"data,omitempty"` // setvec: the new content of the vector; echo_sid: filled in at run time with the client's session id
 	Ext int    `json:"ext"` // >= 0: prefer fields inside this extension type; -1: any field
@@ -446,6 +447,7 @@ type hsEditFilter struct {
 	idx   int
 	done  bool
 	Fired []string
+	typeDone map[int]bool
 }
 
 func (f *hsEditFilter) Write(p []byte) ([]byte, int) {
@@ -475,13 +477,20 @@ func (f *hsEditFilter) Write(p []byte) ([]byte, int) {
 		}
 		i := f.idx
 		f.idx++
-		for _, e := range f.plan {
-			if e.Msg != i || n < 4 {
+		for k := range f.plan {
+			e := f.plan[k]
+			if n < 4 || e.Type == 0 && e.Msg != i || e.Type > 0 && (int(rec[5]) != e.Type || f.typeDone[k]) {
 				continue
 			}
 			l := int(rec[6])<<16 | int(rec[7])<<8 | int(rec[8])
 			if l != n-4 {
 				continue // several messages or a fragment in this record
+			}
+			if e.Type > 0 {
+				if f.typeDone == nil {
+					f.typeDone = map[int]bool{}
+				}
+				f.typeDone[k] = true
 			}
 			nb, ok := applyHSEdit(rec[5], rec[9:], e)
 			if !ok || len(nb)+4 > 16384 {
